@@ -66,8 +66,28 @@ impl LibraryRenderer {
         }
     }
 
-    fn write_char(&mut self, val: char) {
-        self.buffer.push(val);
+    /// Writes one character of a character string literal that is enclosed
+    /// in `quote`, escaping the characters that cannot be written directly.
+    fn write_string_char(&mut self, val: char, quote: char) {
+        match val {
+            '$' => self.buffer.push_str("$$"),
+            '\n' => self.buffer.push_str("$N"),
+            '\r' => self.buffer.push_str("$R"),
+            '\t' => self.buffer.push_str("$T"),
+            '\u{c}' => self.buffer.push_str("$P"),
+            c if c == quote => {
+                self.buffer.push('$');
+                self.buffer.push(c);
+            }
+            c if (c as u32) < 0x20 => {
+                if quote == '"' {
+                    self.buffer.push_str(&format!("${:04X}", c as u32));
+                } else {
+                    self.buffer.push_str(&format!("${:02X}", c as u32));
+                }
+            }
+            c => self.buffer.push(c),
+        }
     }
 
     fn write(&mut self, val: &str) {
@@ -147,11 +167,11 @@ impl Visitor<Diagnostic> for LibraryRenderer {
         node: &CharacterStringLiteral,
     ) -> Result<Self::Value, Diagnostic> {
         // TODO this may not be right
-        let mut val = String::from("'");
-        let s: String = node.value.iter().collect();
-        val.push_str(s.as_str());
-        val.push('\'');
-        self.write_ws(&val);
+        self.write_ws("'");
+        for c in node.value.iter() {
+            self.write_string_char(*c, '\'');
+        }
+        self.write("'");
         Ok(())
     }
 
@@ -657,7 +677,7 @@ impl Visitor<Diagnostic> for LibraryRenderer {
 
             self.write(quote);
             for c in init.iter() {
-                self.write_char(*c);
+                self.write_string_char(*c, if quote == "\"" { '"' } else { '\'' });
             }
             self.write(quote);
         }
